@@ -55,6 +55,8 @@ def is_sequence_type_restriction(st1: str, st2: str) -> bool:
     elif st2 in ('empty-sequence()', 'none') and \
             (st1 in ('empty-sequence()', 'none') or st1.endswith(('?', '*'))):
         return True
+    elif st2 in ('empty-sequence()', 'none'):
+        return False  # the empty sequence doesn't match item(), T or T+
 
     # check occurrences
     if st1[-1] not in '?+*':
